@@ -24,7 +24,8 @@ PROOFS = {}
 
 
 class ProofDef:
-    def __init__(self, name, fn, prop, functions, assumptions, family, stubs, doc, bounded_only=False):
+    def __init__(self, name, fn, prop, functions, assumptions, family, stubs, doc, bounded_only=False,
+                 thorough_only=False):
         self.name = name
         self.fn = fn
         self.prop = prop
@@ -34,12 +35,13 @@ class ProofDef:
         self.stubs = stubs
         self.doc = doc
         self.bounded_only = bounded_only
+        self.thorough_only = thorough_only
 
 
-def proof(name, functions=(), assumptions=(), family=None, stubs=(), bounded_only=False):
+def proof(name, functions=(), assumptions=(), family=None, stubs=(), bounded_only=False, thorough_only=False):
     def deco(fn):
         PROOFS[name] = ProofDef(name, fn, name.split("/")[0], list(functions), assumptions, family,
-                                list(stubs), (fn.__doc__ or "").strip(), bounded_only)
+                                list(stubs), (fn.__doc__ or "").strip(), bounded_only, thorough_only)
         return fn
     return deco
 
@@ -172,6 +174,13 @@ class VCSym(VCBase):
             self.ctx.add(t <= hi)
         return SBV(t)
 
+    def byte(self, name):
+        """a byte value as a pure bit-vector symbol (no Int<->BV conversion in the formulas)"""
+        t8 = z3.BitVec(name, 8)
+        t = z3.ZeroExt(core.BVW - 8, t8)
+        self.ctx.inputs[name] = ("bv", t)
+        return SBV(t, 8)
+
     def bool(self, name):
         t = z3.Bool(name)
         self.ctx.inputs[name] = ("bool", t)
@@ -207,6 +216,16 @@ class VCSym(VCBase):
     def unreachable(self, label):
         """reaching this point is itself a violated obligation"""
         self.ctx.prove("%s/%s" % (self.name, label), False)
+
+    def ground(self, label, ok, detail=""):
+        """closed obligation over literals read from the source: decided by evaluation"""
+        ob = core.Obligation("%s/%s" % (self.name, label), "discharged" if ok else "refuted", "evaluation",
+                             0.0, self.ctx.path_id, {} if not ok else None, detail, 1)
+        self.ctx.run.record(ob)
+        return bool(ok)
+
+    def recseq(self, fname, width, init, step, bits=None):
+        return RecSeqSym(self, fname, width, init, step, bits)
 
     # code under verification ---------------------------------------------------------
     def module(self, fullname):
@@ -292,6 +311,50 @@ def _argkey(a):
     return arg_key(a)
 
 
+class RecSeqSym:
+    """vector-valued recursively defined spec sequence: at(0) = init, at(i) = step(at(i-1), i).
+    bits=8: every component is a byte (8-bit sort, zero-extended when used)"""
+
+    def __init__(self, vc, fname, width, init, step, bits=None):
+        self.vc = vc
+        self.step = step
+        self.width = width
+        self.bits = bits
+        w = bits or core.BVW
+        self.fs = [z3.Function("REC|%s|%d" % (fname, k), z3.IntSort(), z3.BitVecSort(w)) for k in range(width)]
+        c = vc.ctx
+        for k in range(width):
+            c.fact(self.fs[k](z3.IntVal(0)) == self._narrow(init[k]))
+        self.seen = set()
+
+    def _narrow(self, v):
+        t = core.tobv(v)
+        if self.bits:
+            b = core._bits(v)
+            if b is None or b > self.bits:
+                raise HarnessError("recseq component does not fit %d bits" % self.bits)
+            return z3.simplify(z3.Extract(self.bits - 1, 0, t))
+        return t
+
+    def _wide(self, t):
+        if self.bits:
+            return SBV(z3.ZeroExt(core.BVW - self.bits, t), self.bits)
+        return SBV(t)
+
+    def at(self, i):
+        c = self.vc.ctx
+        it = _simp(_t(i))
+        k = it.sexpr()
+        if k not in self.seen:
+            self.seen.add(k)
+            prev = _simp(it - 1)
+            pv = [self._wide(f(prev)) for f in self.fs]
+            nxt = self.step(pv, SInt(it))
+            conj = [self.fs[j](it) == self._narrow(nxt[j]) for j in range(self.width)]
+            c.fact(z3.Implies(it >= 1, z3.And(*conj)))
+        return [self._wide(f(it)) for f in self.fs]
+
+
 class FoldSym:
     """recursively defined spec function  at(0) = init, at(i+1) = step(at(i), data[i])  as an
     uninterpreted function with its defining axioms instantiated where it is used"""
@@ -322,7 +385,7 @@ class FoldSym:
                 seg = self.data.segs[0]
                 prev = _simp(it - 1)
                 byte = seg.byte(prev)
-                b = SBV(z3.Int2BV(byte, core.BVW)) if self.bv else SInt(byte)
+                b = core.byte_bv(byte) if self.bv else SInt(byte)
                 nxt = self.step(self._wrap(self.f(prev)), b)
                 nt = core.tobv(nxt) if self.bv else core.toint(nxt)
                 c.fact(z3.Implies(z3.And(it >= 1, it <= self.data.length_term()), self.f(it) == nt))
@@ -347,6 +410,11 @@ class VCConc(VCBase):
 
     def _get(self, name):
         if name not in self.inputs:
+            import re
+            m = re.fullmatch(r"(\w+)\[(\d+)\]", name)
+            if m and m.group(1) in self.inputs and int(m.group(2)) < len(self.inputs[m.group(1)]):
+                self.used.add(m.group(1))
+                return self.inputs[m.group(1)][int(m.group(2))]
             raise Skip("input %r not supplied" % name)
         self.used.add(name)
         return self.inputs[name]
@@ -358,6 +426,7 @@ class VCConc(VCBase):
         return v
 
     bv = int
+    byte = int
 
     def bool(self, name):
         return bool(self._get(name))
@@ -425,6 +494,24 @@ class VCConc(VCBase):
 
     def fold(self, fname, data, init, step, bv=True):
         return FoldConc(data, init, step)
+
+    def ground(self, label, ok, detail=""):
+        self.results.append(("%s/%s" % (self.name, label), bool(ok), detail))
+        return bool(ok)
+
+    def recseq(self, fname, width, init, step, bits=None):
+        return RecSeqConc(init, step)
+
+
+class RecSeqConc:
+    def __init__(self, init, step):
+        self.vals = [list(init)]
+        self.step = step
+
+    def at(self, i):
+        while len(self.vals) <= i:
+            self.vals.append(list(self.step(self.vals[-1], len(self.vals))))
+        return self.vals[i]
 
 
 class FoldConc:
